@@ -203,7 +203,7 @@ Theorem C07_source_load_from_file_is_model :
   forall (ws : N -> bool) (pfloat : pstr -> option float) (encb : N -> bool) (reason : pstr)
          (copen : pstr -> pstr -> option pstr -> option (list pstr)) (lb : N -> bool) (filename encoding : pstr) (text : str),
   copen filename encoding (Some surrogateescape) = Some (lines_keep lb text) ->
-  agrees (py_load_from_file F64ops ws pfloat (enc_of encb reason) copen [] filename encoding)
+  agrees (py_load_from_file F64ops ws pfloat (LoaderGenProofs.enc_of encb reason) copen [] filename encoding)
          (load_guesser lb ws pfloat encb (onfail_of_reason reason) text).
 Proof. exact load_from_file_is_load_guesser. Qed.
 
@@ -211,13 +211,13 @@ Theorem C07_source_load_from_file_no_file :
   forall (ws : N -> bool) (pfloat : pstr -> option float) (encb : N -> bool) (reason : pstr)
          (copen : pstr -> pstr -> option pstr -> option (list pstr)) gs (filename encoding : pstr),
   copen filename encoding (Some surrogateescape) = None ->
-  py_load_from_file F64ops ws pfloat (enc_of encb reason) copen gs filename encoding = Done (gs, false).
+  py_load_from_file F64ops ws pfloat (LoaderGenProofs.enc_of encb reason) copen gs filename encoding = Done (gs, false).
 Proof. exact load_from_file_no_file. Qed.
 
 Theorem C07_source_load_from_file_never_raises :
   forall (ws : N -> bool) (pfloat : pstr -> option float) (encb : N -> bool) (reason : pstr)
          (copen : pstr -> pstr -> option pstr -> option (list pstr)) (filename encoding : pstr),
-  exists gs b, py_load_from_file F64ops ws pfloat (enc_of encb reason) copen [] filename encoding = Done (gs, b).
+  exists gs b, py_load_from_file F64ops ws pfloat (LoaderGenProofs.enc_of encb reason) copen [] filename encoding = Done (gs, b).
 Proof. exact load_from_file_total. Qed.
 
 (* C07_roundtrip_guesser restated over the translated function *)
@@ -228,7 +228,7 @@ Theorem C07_roundtrip_guesser_translated :
     Forall (fun it => forallb encb (write_line repr it) = true) l ->
     Forall (fun it => okbF (snd it) = true) l ->
     copen filename encoding (Some surrogateescape) = Some (lines_keep LB (write_file repr l)) ->
-    py_load_from_file F64ops WS pfloat (enc_of encb reason) copen [] filename encoding
+    py_load_from_file F64ops WS pfloat (LoaderGenProofs.enc_of encb reason) copen [] filename encoding
       = Done (map item_of (group_by_prob l), true)
     /\ flat_map (@it_values float) (map item_of (group_by_prob l)) = map fst l.
 Proof. exact roundtrip_guesser_translated. Qed.
@@ -239,7 +239,7 @@ Theorem C07_source_scorer_load_from_file_is_model :
   forall (ws : N -> bool) (pfloat : pstr -> option float) (encb : N -> bool) (reason : pstr)
          (copen : pstr -> pstr -> option pstr -> option (list pstr)) (lb : N -> bool) (filename encoding : pstr) (text : str),
   copen filename encoding (Some surrogateescape) = Some (lines_keep lb text) ->
-  py_scorer_load_from_file F64ops ws pfloat (enc_of encb reason) copen [] filename encoding =
+  py_scorer_load_from_file F64ops ws pfloat (LoaderGenProofs.enc_of encb reason) copen [] filename encoding =
   Done (snd (load_scorer lb ws pfloat encb (onfail_of_reason reason) text),
         fst (load_scorer lb ws pfloat encb (onfail_of_reason reason) text)).
 Proof. exact scorer_load_from_file_is_load_scorer. Qed.
@@ -248,7 +248,7 @@ Theorem C07_source_scorer_load_from_file_no_file :
   forall (ws : N -> bool) (pfloat : pstr -> option float) (encb : N -> bool) (reason : pstr)
          (copen : pstr -> pstr -> option pstr -> option (list pstr)) d (filename encoding : pstr),
   copen filename encoding (Some surrogateescape) = None ->
-  py_scorer_load_from_file F64ops ws pfloat (enc_of encb reason) copen d filename encoding = Done (d, false).
+  py_scorer_load_from_file F64ops ws pfloat (LoaderGenProofs.enc_of encb reason) copen d filename encoding = Done (d, false).
 Proof. exact scorer_load_from_file_no_file. Qed.
 
 (* C07_roundtrip_scorer restated over the translated function *)
@@ -259,7 +259,7 @@ Theorem C07_roundtrip_scorer_translated :
     Forall (fun it => forallb encb (write_line repr it) = true) l ->
     NoDup (map fst l) ->
     copen filename encoding (Some surrogateescape) = Some (lines_keep LB (write_file repr l)) ->
-    py_scorer_load_from_file F64ops WS pfloat (enc_of encb reason) copen [] filename encoding = Done (l, true).
+    py_scorer_load_from_file F64ops WS pfloat (LoaderGenProofs.enc_of encb reason) copen [] filename encoding = Done (l, true).
 Proof. exact roundtrip_scorer_translated. Qed.
 
 (* the guesser's reader of Omen/omen_keyspace.txt (load_omen_keyspace), translated: rstrip, split on
@@ -276,7 +276,7 @@ Proof. exact load_omen_keyspace_eq. Qed.
 
 (* hypotheses satisfiable: the two-line file of C07_example through the translated reader *)
 Theorem C07_source_example :
-  py_load_from_file F64ops WS pf1 (enc_of (fun _ => true) []) (fun _ _ _ => Some (lines_keep LB (write_file rp1 [([32; 97; 32]%N, 0.5%float); ([233; 128512]%N, 0.5%float)]))) [] [] []
+  py_load_from_file F64ops WS pf1 (LoaderGenProofs.enc_of (fun _ => true) []) (fun _ _ _ => Some (lines_keep LB (write_file rp1 [([32; 97; 32]%N, 0.5%float); ([233; 128512]%N, 0.5%float)]))) [] [] []
   = Done ([{| it_values := [[32; 97; 32]%N; [233; 128512]%N]; it_prob := 0.5%float |}], true).
 Proof. vm_compute. reflexivity. Qed.
 
